@@ -145,3 +145,62 @@ Proof.
   - intros [d k pv]. unfold Q, proj_event, ev_kv. destruct d; reflexivity.
   - apply Forall_forall. intros y _. reflexivity.
 Qed.
+
+(* ------------------------------------------------------------------ the event log's keys stay well formed *)
+
+Lemma keys_wf_app sb rev kv e : keys_wf sb -> wf_bytes (bev_key e) -> keys_wf (mkB rev kv (b_events sb ++ [e])).
+Proof. unfold keys_wf; cbn. intros H He. apply Forall_app. split; [exact H|constructor; [exact He|constructor]]. Qed.
+
+Lemma keys_wf_same sb rev kv : keys_wf sb -> keys_wf (mkB rev kv (b_events sb)).
+Proof. unfold keys_wf; cbn. auto. Qed.
+
+Lemma b_create_keys_wf sb k v t : wf_bytes k -> keys_wf sb -> keys_wf (fst (fst (b_create sb k v t))).
+Proof.
+  intros Hk H. unfold b_create. destruct (match bk_idx (b_find k (b_kv sb)) with Some (prev, tomb) => _ | None => true end); cbn [fst].
+  - apply keys_wf_app; assumption.
+  - apply keys_wf_same; assumption.
+Qed.
+
+Lemma b_delete_keys_wf sb k e : wf_bytes k -> keys_wf sb -> keys_wf (fst (b_delete sb k e)).
+Proof.
+  intros Hk H. unfold b_delete. destruct (b_get (b_kv sb) k 0) as [|oldv modrev]; cbn [fst]; [apply keys_wf_same; assumption|].
+  destruct (drift e (b_rev sb + 1)); cbn [fst]; [apply keys_wf_same; assumption|].
+  destruct ((0 <? e)%N && negb (e =? modrev)%N); cbn [fst]; [apply keys_wf_same; assumption|].
+  destruct (b_rev sb + 1 <=? modrev)%N; cbn [fst]; [apply keys_wf_same; assumption|].
+  destruct (bk_idx (b_find k (b_kv sb))) as [[ir []]|]; cbn [fst]; try (apply keys_wf_same; assumption).
+  destruct (ir =? modrev)%N; cbn [fst]; [apply keys_wf_app; assumption|apply keys_wf_same; assumption].
+Qed.
+
+Lemma b_update_keys_wf sb k v e : wf_bytes k -> keys_wf sb -> keys_wf (fst (b_update sb k v e)).
+Proof.
+  intros Hk H. unfold b_update. destruct (e =? 0)%N.
+  - pose proof (b_create_keys_wf sb k v BCreate Hk H) as Hc. destruct (b_create sb k v BCreate) as [[st' rev] []]; cbn [fst] in *; [exact Hc|].
+    destruct (b_get (b_kv st') k 0); exact Hc.
+  - destruct (drift e (b_rev sb + 1)); cbn [fst]; [apply keys_wf_same; assumption|].
+    destruct (bk_idx (b_find k (b_kv sb))) as [[ir []]|].
+    + destruct (b_get (b_kv sb) k 0); cbn [fst]; apply keys_wf_same; assumption.
+    + destruct (ir =? e)%N; cbn [fst]; [apply keys_wf_app; assumption|].
+      destruct (b_get (b_kv sb) k 0); cbn [fst]; apply keys_wf_same; assumption.
+    + destruct (b_get (b_kv sb) k 0); cbn [fst]; apply keys_wf_same; assumption.
+Qed.
+
+(* every transaction of one of the shapes on a well-formed key keeps the log's keys well formed *)
+Lemma shim_txn_keys_wf sb t sh : canonical t = Some sh -> wf_bytes (shape_key sh) -> keys_wf sb -> keys_wf (fst (shim_txn sb t)).
+Proof.
+  intros Hc Hk H. pose proof (canonical_inv t sh Hc) as Hinv. destruct sh as [k v|k v e|k e|k]; cbn [shape_key] in Hk.
+  - destruct Hinv as (u & lease & Hu & ->).
+    assert (Hshim : shim_txn sb (q_create k v u lease) =
+                    let '(st', rev, ok) := b_create sb k v BCreate in (st', TOk (i64_of_N rev) ok [RsPut (i64_of_N rev) None])).
+    { unfold shim_txn, isCreate, q_create, q_cmp, q_put, get_mod; cbn. rewrite Hu. cbn. reflexivity. }
+    rewrite Hshim. pose proof (b_create_keys_wf sb k v BCreate Hk H) as Hx.
+    destruct (b_create sb k v BCreate) as [[st' rev] ok]. exact Hx.
+  - destruct Hinv as (u & lease & lim & Hu & ->). rewrite shim_update_eq.
+    pose proof (b_update_keys_wf sb k v (u64_of_Z (union_mod u)) Hk H) as Hx.
+    destruct (b_update sb k v (u64_of_Z (union_mod u))) as [st' [|h [] cur]]; exact Hx.
+  - destruct Hinv as (u & lim & Hu & ->). rewrite shim_delete_eq.
+    pose proof (b_delete_keys_wf sb k (u64_of_Z (union_mod u)) Hk H) as Hx.
+    destruct (b_delete sb k (u64_of_Z (union_mod u))) as [st' [|h ok cur]]; exact Hx.
+  - destruct Hinv as (lim & ->). rewrite shim_deleteu_eq.
+    pose proof (b_delete_keys_wf sb k 0%N Hk H) as Hx.
+    destruct (b_delete sb k 0%N) as [st' [|h ok cur]]; exact Hx.
+Qed.
